@@ -31,6 +31,7 @@ TNext ==
        [] Ev.e = "Invalidate"    -> Invalidate
        [] Ev.e = "SetValid"      -> SetValid
        [] Ev.e = "UpdateFor"     -> UpdateFor(Ev.a, Set(Ev.s))
+       [] Ev.e = "Fault"         -> FALSE        \* the recorded execution crashed / threw / hung: not a behaviour
 
 TSpec == TInit /\ [][TNext]_tvars
 
